@@ -74,10 +74,14 @@ pub fn run(a: &Args) {
         let threads: Vec<ThreadSpec> = (0..nth).map(|i| ThreadSpec { kind: if !crowd && !held_all && (shape > 0 || i == 1) && rng.chance(1, 3) { Kind::NullSp } else { Kind::Block }, sp_off: 0x800, pages: 2, name: Some(format!("w{i}").into_bytes()), at: None }).collect();
         // the linker stream can fail because its data cannot be read, or because a loaded object's name is not valid UTF-8
         // (a different error value travels into the soft-error list)
-        let dso_fails = shape > 0 && rng.chance(1, 2);
-        let dso_bad_name = dso_fails && rng.chance(1, 2);
+        let dso_fails = shape > 0 && (rng.chance(1, 2) || shape == 4);
+        let dso_bad_name = dso_fails && shape != 4 && rng.chance(1, 2);
+        // ... or because the program headers the writer is shown are readable but hold no PT_DYNAMIC entry (AT_PHNUM too small,
+        // a static executable): that is a failure of the step like any other and must be reported
+        let dso_nodyn = dso_fails && !dso_bad_name && (shape == 4 || rng.chance(1, 2));
         let mut lines: Vec<String> = vec!["fd file".into(), "fd pipe".into(), "anon 2 rw- 0".into()];
         if dso_bad_name { lines.push(format!("chain {} 4", rng.range(1, 4))); }
+        if dso_nodyn { lines.push("chain 2 0".into()); }
         let scen = Scenario { threads, lines };
         let target = match Target::spawn(&scen, &work) { Ok(t) => t, Err(e) => { out.notes.push(format!("spawn failed: {e}")); continue; } };
         // a natural failure of "stopping the process": the target's main thread is held in a trace stop by another tracer (this
@@ -102,6 +106,7 @@ pub fn run(a: &Args) {
             if held_main { w.stop_timeout(std::time::Duration::from_millis(40)); }
             if skip_unref { w.skip_stacks_if_mapping_unreferenced(); }
             if dso_bad_name { w.set_direct_auxv_dump_info(DirectAuxvDumpInfo { program_header_count: 2, program_header_address: chain_base, linux_gate_address: 0, entry_address: 0 }); }
+            else if dso_nodyn { w.set_direct_auxv_dump_info(DirectAuxvDumpInfo { program_header_count: 1, program_header_address: chain_base, linux_gate_address: 0, entry_address: 0 }); }
             else if dso_fails { w.set_direct_auxv_dump_info(DirectAuxvDumpInfo { program_header_count: 3, program_header_address: 0x10, linux_gate_address: 0, entry_address: 0 }); }
         };
         // warm-up dump: the first stop interrupts every blocking syscall of the target; from the second stop on
